@@ -359,7 +359,7 @@ pub proof fn lemma_remove_missing(s: St, a: PathV)
         let ghost s0 = guard.st();
         let ghost a = path@;
 //@ endins
-//@ ins before ⟦entry.remove(path.base()?)?;⟧
+//@ ins before re⟦entry\.remove\(path\.\w+\(\)\?\)\?;⟧
             proof { assert(s0.entries.insert(dir@, s0.entries[dir@]) =~= s0.entries); if s0.entries.contains_key(a) { assert(entry_ok(s0, a)); } }
 //@ endins
 //@ ins after ⟦guard.remove_entry(&path);⟧
@@ -2163,7 +2163,7 @@ pub fn chmod_b(guard: &MemfsGuard, path: &PathBuf) -> (r: RvResult<Chmod>)
             }),
 //@ body
 //@ item chown_b file=src/sys/fs/memfs/vfs.rs block="impl VirtualFileSystem for Memfs" fn=chown_b props=C11,C05,C12
-//@ rw R11 1 ⟦self.abs(path)?⟧ => ⟦_abs(guard, path)?⟧
+//@ rw R11 * ⟦self.abs(path)?⟧ => ⟦_abs(guard, path)?⟧
 //@ rw R9 1 ⟦let vfs = self.clone();⟧ => ⟦⟧
 //@ rw R9 1 re⟦let exec_func = move \|[^|]*\| -> RvResult<\(\)> \{[^}]*\};⟧ => ⟦⟧
 //@ rw R9 1 ⟦exec: Box::new(exec_func),⟧ => ⟦⟧
